@@ -23,9 +23,9 @@ if [ $HAVE_HDR = 1 ] && [ -z "${CPPS:-}" ]; then echo "SEEDTRY $NAME: patch chan
 (cd $D/tree && patch -s -p1 < $PATCH) || { echo "SEEDTRY $NAME: patch failed"; exit 4; }
 EXTRA=""; INC=""
 [ $HAVE_HDR = 1 ] && INC="-I$D/tree/src"
-for f in $FILES; do case $f in *.cpp) EXTRA="$EXTRA $D/tree/$f"; INC="$INC -I/repo/$(dirname $f)";; esac; done
+for f in $FILES; do case $f in *.cpp) EXTRA="$EXTRA $D/tree/$f"; INC="$INC -iquote /repo/$(dirname $f)";; esac; done
 for c in ${CPPS:-}; do
-  case " $FILES " in *" src/$c "*) ;; *) mkdir -p $D/tree/src/$(dirname $c); cp /repo/src/$c $D/tree/src/$c; EXTRA="$EXTRA $D/tree/src/$c"; INC="$INC -I/repo/src/$(dirname $c)";; esac
+  case " $FILES " in *" src/$c "*) ;; *) mkdir -p $D/tree/src/$(dirname $c); cp /repo/src/$c $D/tree/src/$c; EXTRA="$EXTRA $D/tree/src/$c"; INC="$INC -iquote /repo/src/$(dirname $c)";; esac
 done
 ENG=${ENGINES:-$(grep -l "\"$PROP\"" /verif/src/engines/*.cpp | tr '\n' ' ')}
 make -C /verif -j${JOBS:-6} ENGINES="$ENG" OBJ=/verif/build/obj_st_$NAME BIN=/verif/build/verifsim_st_$NAME EXTRA_SRCS="$EXTRA" CPPFLAGS_EXTRA="$INC" > $D/build.log 2>&1 || { echo "SEEDTRY $NAME: build failed"; tail -20 $D/build.log; exit 4; }
